@@ -405,7 +405,8 @@ Section Facts.
                rewrite (IH (S j) (lg ++ [EvPass t (S j)]) 0 Hs') by (apply regime_next; auto).
                destruct n'; [reflexivity|apply fo_of_later].
           * (* previous vector not finite: only possible under 'ignore' *)
-            destruct (errors o) eqn:E; try (rewrite R2 in A by auto; discriminate); try contradiction.
+            destruct (errors o) eqn:E; try contradiction;
+              try (exfalso; assert (Hft : false = true) by (apply R2; auto); discriminate Hft).
             -- assert (Hc : conv (tol o) (chk (S j)) (chk j) = false).
                { specialize (R4 eq_refl (S j)). replace (S j - 1)%nat with j in R4 by lia. apply R4; auto. lia. }
                rewrite Hc.
